@@ -11,6 +11,7 @@
 import AJ.Model.Run
 import AJ.Model.Lax
 import AJ.Model.Why
+import AJ.Model.Stats
 import AJ.Model.Full
 import AJ.Model.Flat
 namespace AJ.Dyn
@@ -270,7 +271,8 @@ def bcTag : Bc → String
 def whyTag : Why → String
   | .fine => "F" | .critical => "C" | .timedOut (some n) => s!"T{n}" | .timedOut none => "TN"
 
-def replayB (c : Cfg) (evs : List ObsB) (diag : List (Nat × Bool × Bool × String)) : String := Id.run do
+def replayB (c : Cfg) (evs : List ObsB) (diag : List (Nat × Bool × Bool × String))
+    (fin stats : List (Nat × String) := []) : String := Id.run do
   let mut st := StB.init
   let mut i := 0
   let mut diffs : Array String := #[]
@@ -397,9 +399,31 @@ def replayB (c : Cfg) (evs : List ObsB) (diag : List (Nat × Bool × Bool × Str
     if st.pcB s == .over && w != "-" && whyTag (st.why c s) != w then
       diffs := diffs.push s!"{i} diag scheduler {s} why observed={w} model={whyTag (st.why c s)}"
     if st.pcB s == .over && w != "-" then cov := cov.push s!"why:{(whyTag (st.why c s)).take 1}"
+  -- the inspection API after the run (component `final`): is_idle / is_scheduled / is_running / is_done of every job,
+  -- as four bits, against the functions of AJ/Model/Run.lean; and `stats()` of every scheduler (component `stats`)
+  -- against `statsOf` (AJ/Model/Stats.lean).  Only when the whole history was accepted without a difference.
+  if diffs.isEmpty then
+    let bit := fun (b : Bool) => if b then "1" else "0"
+    for (j, obs) in fin do
+      let m := bit (isIdle st.a j) ++ bit (isScheduled st.a j) ++ bit (isRunning st.a j) ++ bit (isDone st.a j)
+      if m != obs then diffs := diffs.push s!"{i} final job {j} idle/scheduled/running/done observed={obs} model={m}"
+    for (s, obs) in stats do
+      let (d, r, il, n) := statsOf c st.a s
+      let m := s!"{d}.{r}.{il}.{n}"
+      if m != obs then diffs := diffs.push s!"{i} stats scheduler {s} observed={obs} model={m}"
+    if !fin.isEmpty then cov := cov.push "final"
+    if !stats.isEmpty then cov := cov.push "stats"
   let covs := ",".intercalate cov.toList
   if diffs.isEmpty then return s!"ok {i} cov={covs}"
   return s!"diff {i} | " ++ " | ".intercalate diffs.toList
+
+/-- `k:word,k:word,…` (or `-`) -/
+def parseTagged (s : String) : Option (List (Nat × String)) :=
+  if s.isEmpty || s = "-" then some [] else
+  (s.splitOn ",").mapM fun e =>
+    match e.splitOn ":" with
+    | [k, w] => do pure (← k.toNat?, w)
+    | _ => none
 
 def parseDiag (s : String) : Option (List (Nat × Bool × Bool × String)) :=
   if s.isEmpty || s = "-" then some [] else
@@ -453,8 +477,9 @@ def handle (cmd : String) (toks : List String) : String :=
         | none => "bad-request event"
         | some l => timingLine c (l.map (·.ev))
       else
-        match items.mapM parseEvB, (getKV kv "diag").bind parseDiag with
-        | some l, some d => replayB c l d
-        | _, _ => "bad-request event"
+        match items.mapM parseEvB, (getKV kv "diag").bind parseDiag,
+              parseTagged ((getKV kv "fin").getD "-"), parseTagged ((getKV kv "stats").getD "-") with
+        | some l, some d, some f, some t => replayB c l d f t
+        | _, _, _, _ => "bad-request event"
 
 end AJ.Dyn
